@@ -494,12 +494,18 @@ pub fn gen_c05(rng: &mut Rng) -> Value {
     };
     let mut sc = gen_history(rng, &m);
     // rarely: one key with a very long history (a bucket of 70+ records)
-    if rng.chance(1, 60) {
+    if rng.chance(1, 40) {
         let steps = sc["steps"].as_array_mut().unwrap();
         let f = flav(rng);
         let mut pre = Vec::new();
+        let cjk = rng.chance(1, 2);
         for i in 0..rng.range(66, 80) {
-            pre.push(json!({"k":"api","op":"write","entry":"opts","key":0,"val":(i % 2),"opts":{"time":i.to_string()},"bin":f.0,"mode":f.1}));
+            let mut o = json!({"time":i.to_string()});
+            if cjk {
+                // records full of multi-byte characters: any fixed-size chunking of the file splits some of them
+                o["meta"] = json!({"t": "\u{65e5}\u{672c}\u{8a9e}\u{1f980}".repeat(40 + (i as usize % 7))});
+            }
+            pre.push(json!({"k":"api","op":"write","entry":"opts","key":0,"val":(i % 2),"opts":o,"bin":f.0,"mode":f.1}));
         }
         pre.push(json!({"k":"audit","bin":"sync","mode":"sync","what":["metadata","read"]}));
         let tail: Vec<Value> = steps.drain(..).collect();
